@@ -31,9 +31,15 @@ def check_record(args):
             # ends the specification joins a hair apart (below the matching tolerance), ends it keeps apart a few
             # tolerances from each other: the J / E lines must follow the documented matching rule
             import random
-            from .c12 import NearMiss
+            from .c12 import NearMiss, LowJunction
             rnd = random.Random('%s/%s/%s' % (sd, mode, C.h(inp)))
-            conc = T.Concretiser(rnd, jitter=1e-5) if mode == 'jitter' else NearMiss(rnd, inp, diag=(mode == 'nearmiss-diag'))
+            if mode == 'low-junction':
+                # a junction 1.5 matching tolerances above z = 0 is not on the ground
+                conc = LowJunction(rnd, inp)
+                if conc.low is None:
+                    return out
+            else:
+                conc = T.Concretiser(rnd, jitter=1e-5) if mode == 'jitter' else NearMiss(rnd, inp, diag=(mode == 'nearmiss-diag'))
         m = T.build(inp, ground, conc)
         lines, rows = T.decode_lines(m)
     except R.ReportError as e:
@@ -114,6 +120,7 @@ def jobs(chk, tier):
                     yield (r, g, 'jitter', sd)
                     yield (r, g, 'nearmiss', sd)
                     yield (r, g, 'nearmiss-diag', sd)
+                    yield (r, g, 'low-junction', sd)
 
 
 def signature(kind, d, rec):
